@@ -10,7 +10,14 @@ from gen_api import hx, KEYS, ALLKEYS, VALUES, MEMBERS, PATTERNS
 NUMS = [b"0", b"1", b"-1", b"2", b"5", b"10", b"100", b"-100", b"007", b"+5", b"abc", b"", b"1.5", b"9223372036854775807",
         b"-9223372036854775808", b"9223372036854775808", b"99999999999999999999", b" 1", b"1 "]
 SMALLNUMS = [b"0", b"1", b"2", b"3", b"-1", b"-2", b"5", b"10"]
-FLOATS = [b"0", b"1", b"-1", b"2", b"3", b"10", b"(1", b"(2", b"abc", b"", b"1.5", b"inf", b"-inf", b"+inf", b"nan"]
+FLOATS = [b"0", b"1", b"-1", b"2", b"3", b"10", b"(1", b"(2", b"abc", b"", b"1.5", b"inf", b"-inf", b"+inf", b"nan",
+          b"0.1", b"1e-3", b"3.0e3", b"-.5", b"5.", b"1e400", b"1e-400", b"0.1e1", b"(0.5", b"1_0"]
+# INCRBYFLOAT operands and stored texts: fractions, exponents, range errors, underflow, 17-digit values, subnormals
+FLOAT_ARGS = [b"1", b"-1", b"2", b"10", b"(3", b"", b"abc", b"0.1", b"0.2", b"1e-3", b"3.0e3", b"-.5", b"5.", b"1e400", b"-1e400", b"1e-400", b"0.1e1",
+              b"0.30000000000000004", b"1e16", b"1e300", b"-1e300", b"1.7976931348623157e308", b"5e-324", b"(0.25", b"1_000", b"1e", b".", b"1E+2",
+              b"9007199254740993", b"123456.789", b"nan", b"inf"]
+FLOAT_TEXTS = [b"0", b"5", b"-3", b"+5", b"007", b"12a", b"", b"99", b"0.1", b"1e3", b"-.5", b"5.", b"1e400", b"1e-400", b"0.1e1", b"1_000", b"inf",
+               b"-Infinity", b"1.7976931348623157e308", b"9007199254740993", b"0.30000000000000004", b"4.9e-324", b"1E5", b"-0", b"00.50", b"nan", b"NaN"]
 
 
 # option words of the protocol, used now and then as ordinary values / members / key names: a word is an
@@ -107,8 +114,9 @@ class R(gen_api.G):
             lambda: ["INCR", k], lambda: ["DECR", k],
             lambda: ["INCRBY", k, self.num(pool=[b"1", b"-1", b"5", b"100", b"9223372036854775807"])],
             lambda: ["DECRBY", k, self.num(pool=[b"1", b"-1", b"5", b"100", b"-9223372036854775808"])],
-            lambda: ["INCRBYFLOAT", "6631", hx(c([b"1", b"-1", b"2", b"10", b"(3", b"", b"abc"]))],
-            lambda: ["SET", "6631", hx(c([b"0", b"5", b"-3", b"+5", b"007", b"12a", b"", b"99"]))],
+            lambda: ["INCRBYFLOAT", "6631", hx(c(FLOAT_ARGS))],
+            lambda: ["INCRBYFLOAT", "6631", hx(c(FLOAT_ARGS))],
+            lambda: ["SET", "6631", hx(c(FLOAT_TEXTS))],
             lambda: ["SETBIT", k, self.num(pool=[b"0", b"1", b"7", b"8", b"15", b"100", b"-1"]), hx(c([b"0", b"1", b"2", b"x", b""]))],
             lambda: ["GETBIT", k, self.num(pool=[b"0", b"1", b"7", b"8", b"15", b"100", b"-1"])],
             lambda: ["BITCOUNT", k] + ([self.num(), self.num()] if r.random() < 0.6 else []) + ([self.word(c(["BIT", "BYTE"]))] if r.random() < 0.3 else []),
